@@ -119,7 +119,9 @@ def enum_case(draw):
         vals = draw(st.lists(st.one_of(st.integers(-5, 5), st.integers(-2**40, 2**40)), min_size=1, max_size=6, unique=True))
     return {"kind": "enum", "literal": literal, "base": base, "values": vals, "null": draw(st.integers(0, 3)) == 0,
             "place": draw(st.sampled_from(["inline", "component", "wrapped", "union_with_model", "component_in_union"])), "required": draw(st.booleans()),
-            "typed": draw(st.booleans()), "v31": draw(st.booleans())}
+            "typed": draw(st.booleans()), "v31": draw(st.booleans()),
+            # the 3.0 keyword 'nullable: true' beside an enum that does not list null: null is still not one of the values
+            "nullable_keyword": draw(st.integers(0, 3)) == 0}
 
 
 @st.composite
@@ -128,7 +130,7 @@ def const_case(draw):
                        st.sampled_from([1.5, -0.25, 2.0]), st.booleans()))
     return {"kind": "const", "value": v, "typed": draw(st.booleans()), "required": draw(st.booleans()), "literal": draw(st.booleans()),
             # the const as one alternative of a union: with null (either order) or with a model
-            "union": draw(st.sampled_from([None, None, "null_first", "null_last", "with_model"]))}
+            "union": draw(st.sampled_from([None, None, "null_first", "null_last", "with_model", "two_consts"]))}
 
 
 @st.composite
@@ -237,6 +239,8 @@ def _doc(case):
         if case.get("union") in ("null_first", "null_last"):
             sch = {"oneOf": [{"type": "null"}, sch] if case["union"] == "null_first" else [sch, {"type": "null"}]}
             ver = "3.1.0"
+        elif case.get("union") == "two_consts":
+            sch = {"oneOf": [sch, {**sch, "const": other_const(v)}]}
         elif case.get("union") == "with_model":
             sch = {"oneOf": [sch, {"$ref": "#/components/schemas/Leaf"}]}
             schemas["Leaf"] = copy.deepcopy(LEAF)
@@ -246,6 +250,8 @@ def _doc(case):
         e = {"enum": vals}
         if case.get("typed", True):
             e["type"] = "string" if case["base"] == "str" else "integer"
+        if case.get("nullable_keyword") and not case["null"] and not case.get("v31"):
+            e["nullable"] = True
         schemas = {}
         if case["place"] == "inline":
             prop = e
@@ -263,8 +269,23 @@ def _doc(case):
     return {"openapi": ver, "info": {"title": "t", "version": "1"}, "paths": {}, "components": {"schemas": schemas}}
 
 
+def other_const(v):
+    """A second constant of the same JSON type (the other alternative of a union of two consts)."""
+    if isinstance(v, bool):
+        return not v
+    if isinstance(v, str):
+        return v + "2"
+    return v + 10
+
+
+def _listed(case) -> list:
+    if case["kind"] == "enum":
+        return case["values"]
+    return [case["value"]] + ([other_const(case["value"])] if case.get("union") == "two_consts" else [])
+
+
 def negatives(case) -> list:
-    vals = case["values"] if case["kind"] == "enum" else [case["value"]]
+    vals = _listed(case)
     cands: list = [True, False, 0, 1, "zzz", ""]
     for v in vals[:3]:
         if isinstance(v, str):
@@ -323,6 +344,8 @@ def run(case, ctx):
                 ctx.label("equal_raw_member_names")
     else:
         site0.update({"ctype": type(case["value"]).__name__, "typed": bool(case.get("typed"))})
+        if case.get("union") == "two_consts":
+            site0["union_of_consts"] = True
     try:
         if res.exc is not None:
             ctx.skip("generator_crashed")
@@ -345,7 +368,7 @@ def run(case, ctx):
             if Holder is None:
                 ctx.skip("holder_missing")
                 return
-            listed = case["values"] if case["kind"] == "enum" else [case["value"]]
+            listed = _listed(case)
             # --- every listed value decodes to itself and re-encodes to the same JSON value
             members = set()
             for v in listed + ([None] if (case.get("null") or case.get("union") in ("null_first", "null_last")) else []):
